@@ -55,6 +55,14 @@ impl<T> Receiver<T> {
     }
 }
 
+#[cfg(crux_verif)]
+impl<T> Receiver<T> {
+    /// Verification hook (read-only): number of messages waiting in the channel.
+    pub fn verif_len(&self) -> usize {
+        self.inner.len()
+    }
+}
+
 pub struct Drain<'a, T> {
     receiver: &'a Receiver<T>,
 }
